@@ -25,13 +25,15 @@ import (
 // is new (its XR does not exist yet), so that a binding happens while the first is parked.
 func interleavedClaims(c *kit.Ctx, ssa bool) {
 	mode := map[bool]string{false: "csa", true: "ssa"}[ssa]
-	for v, variant := range []string{"both-bound", "second-unbound"} {
+	for v, variant := range []string{"both-bound", "second-unbound", "both-unbound"} {
 		caseName := fmt.Sprintf("interleave/%s/%s", mode, variant)
 		if !c.Want(caseName) {
 			continue
 		}
 		w := baseWorld(uint64(c.Seed)*53 + uint64(v))
-		w.MustSeed("user", claimObj("ns1", "c1"))
+		if variant != "both-unbound" {
+			w.MustSeed("user", claimObj("ns1", "c1"))
+		}
 		if variant == "both-bound" {
 			w.MustSeed("user", claimObj("ns2", "c1"))
 		}
@@ -58,6 +60,11 @@ func interleavedClaims(c *kit.Ctx, ssa bool) {
 			}
 		}
 		if variant == "second-unbound" {
+			w.MustSeed("user", claimObj("ns2", "c1"))
+		}
+		if variant == "both-unbound" {
+			// two new claims with the same name in different namespaces: both bind in this phase
+			w.MustSeed("user", claimObj("ns1", "c1"))
 			w.MustSeed("user", claimObj("ns2", "c1"))
 		}
 		rec := func(ns string) func() {
